@@ -145,6 +145,8 @@ class P(Unitary):
     """
 
     def __init__(self, theta: float) -> None:
+        # Calculate in double precision, whatever type holds the angle
+        theta = float(theta)
         unitary = np.array(
             [
                 [1, 0],
@@ -166,6 +168,8 @@ class Rx(Unitary):
     """
 
     def __init__(self, theta: float) -> None:
+        # Calculate in double precision, whatever type holds the angle
+        theta = float(theta)
         unitary = np.array(
             [
                 [np.cos(theta / 2), -1j * np.sin(theta / 2)],
@@ -187,6 +191,8 @@ class Ry(Unitary):
     """
 
     def __init__(self, theta: float) -> None:
+        # Calculate in double precision, whatever type holds the angle
+        theta = float(theta)
         unitary = np.array(
             [
                 [np.cos(theta / 2), -np.sin(theta / 2)],
@@ -208,6 +214,8 @@ class Rz(Unitary):
     """
 
     def __init__(self, theta: float) -> None:
+        # Calculate in double precision, whatever type holds the angle
+        theta = float(theta)
         unitary = np.array(
             [
                 [np.exp(-1j * theta / 2), 0],
